@@ -307,3 +307,122 @@ func TestC20_RoundTrip(t *testing.T) {
 		Rule: "generated workspaces whose elements of all nine kinds (file, message, field incl. extensions, oneof, enum, enum value, service, method, extension range) carry custom options from a fixed schema (message Cfg with every scalar type family, enum, repeated fields, nested and repeated messages, string->int and int->message maps, a oneof, a group, Any, extensions of the option message incl. message-typed ones); each intended value is drawn first and then spelled in a random mix of syntaxes (whole message literal with {} or <> and , ; or no separators, list vs repeated entries, optional colons, path statements with dotted names down to nested fields, extension names in [] or (), Any expansion, string concatenation, hex/octal/negative/float/inf/nan spellings, lenient booleans inside literals, enum names); oracle: the options message decoded against the compiled schema equals the intended value (Any payloads compared by content), and no uninterpreted_option remains anywhere; non-trivial = at least one message-literal or multi-statement value; distinct by workspace text",
 		Gen:  c20Gen, Check: c20Check})
 }
+
+// ---- reject side ----
+
+type c20Reject struct {
+	Stmt string // option statement placed in message M of a file importing the schema
+	Why  string
+}
+
+var c20Rejects = []c20Reject{
+	{`option (o.message_cfg) = { I: 1 };`, "field name with wrong capitalisation"},
+	{`option (o.message_cfg) = { S: "x" };`, "field name with wrong capitalisation (string)"},
+	{`option (o.message_cfg) = { G_ { gi: 1 } };`, "unknown group spelling"},
+	{`option (o.message_cfg) = { GRP2 { gi2: 1 } };`, "group type name in the wrong case (upper)"},
+	{`option (o.message_cfg) = { grP2 { gi2: 1 } };`, "group type name in the wrong case (mixed)"},
+	{`option (o.message_cfg) = { GrP2 { gi2: 1 } };`, "group type name in the wrong case (mixed 2)"},
+	{`option (o.message_cfg).G.gi = 1;`, "group named by its type name in an option path"},
+	{`option (o.message_cfg) = { nosuch: 1 };`, "unknown field"},
+	{`option (o.message_cfg) = { [o.nosuch]: 1 };`, "unknown extension in literal"},
+	{`option (o.message_cfg) = { [o.file_i]: 1 };`, "extension of another message in literal"},
+	{`option (o.message_cfg).i = 2147483648;`, "int32 out of range (path)"},
+	{`option (o.message_cfg).i = 3000000000;`, "int32 out of range (path, < 2^32)"},
+	{`option (o.message_cfg) = { i: 4294967295 };`, "int32 out of range (literal)"},
+	{`option (o.message_cfg) = { i: -2147483649 };`, "int32 below range"},
+	{`option (o.message_cfg).f32 = 4294967296;`, "fixed32 out of range"},
+	{`option (o.message_cfg).f32 = -1;`, "negative for unsigned"},
+	{`option (o.message_cfg).u64 = -1;`, "negative for uint64"},
+	{`option (o.message_cfg).u64 = 18446744073709551616;`, "uint64 out of range"},
+	{`option (o.message_cfg).s64 = 9223372036854775808;`, "int64 out of range"},
+	{`option (o.message_cfg).i = 1.5;`, "float for int"},
+	{`option (o.message_cfg).i = "1";`, "string for int"},
+	{`option (o.message_cfg).s = 1;`, "int for string"},
+	{`option (o.message_cfg).s = abc;`, "identifier for string"},
+	{`option (o.message_cfg).flag = 1;`, "int for bool"},
+	{`option (o.message_cfg).flag = t;`, "lenient bool spelling outside a message literal"},
+	{`option (o.message_cfg).flag = True;`, "lenient bool spelling outside a message literal (True)"},
+	{`option (o.message_cfg).c = 1;`, "number for enum in option path"},
+	{`option (o.message_cfg).c = PURPLE;`, "unknown enum value"},
+	{`option (o.message_cfg) = { c: PURPLE };`, "unknown enum value in literal"},
+	{`option (o.message_cfg).d = infinity;`, "infinity spelling outside a message literal"},
+	{`option (o.message_cfg).d = INF;`, "INF spelling outside a message literal"},
+	{`option (o.message_cfg).i = 1; option (o.message_cfg).i = 2;`, "non-repeated scalar set twice"},
+	{`option (o.message_cfg) = { i: 1 i: 2 };`, "non-repeated scalar twice in literal"},
+	{`option (o.message_cfg) = { i: 1 }; option (o.message_cfg) = { s: "x" };`, "whole option set twice"},
+	{`option (o.message_cfg).oa = 1; option (o.message_cfg).ob = "x";`, "two members of a oneof (paths)"},
+	{`option (o.message_cfg) = { oa: 1 ob: "x" };`, "two members of a oneof (literal)"},
+	{`option (o.message_cfg) = { oa: 1 oc { i: 1 } };`, "two members of a oneof (scalar + message)"},
+	{`option (o.message_cfg).i.x = 1;`, "sub-field of a scalar"},
+	{`option (o.message_cfg).kids.i = 1;`, "sub-field of a repeated message via path"},
+	{`option (o.message_cfg).ri = [1, 2];`, "list syntax outside a message literal"},
+	{`option (o.message_cfg) = { i: [1] };`, "list for a non-repeated field"},
+	{`option (o.message_cfg) = { child: 1 };`, "scalar for a message field"},
+	{`option (o.message_cfg) = { i { } };`, "message for a scalar field"},
+	{`option (o.message_cfg) = { m { key: "a" value: "b" } };`, "wrong map value type"},
+	{`option (o.message_cfg) = { m { nokey: "a" } };`, "unknown field in map entry"},
+	{`option (o.message_cfg) = { any { [type.googleapis.com/o.Nope] { } } };`, "unknown Any type"},
+	{`option (o.message_cfg) = { any { [type.googleapis.com/o.Cfg] { } i: 1 } };`, "Any expansion mixed with other fields"},
+	{`option (o.message_cfg) = { child { [type.googleapis.com/o.Cfg] { } } };`, "Any expansion in a non-Any message"},
+	{`option (o.message_i) = { };`, "message literal for an int option"},
+	{`option (o.message_c) = 7;`, "number for an enum option"},
+	{`option (o.file_i) = 1;`, "file option on a message"},
+	{`option (o.nosuch) = 1;`, "unknown custom option"},
+	{`option o.message_i = 1;`, "custom option without parentheses"},
+	{`option (o.message_i).x = 1;`, "path into a scalar option"},
+	{`option (o.message_rs) = ["a", "b"];`, "list literal as a top-level option value"},
+	{`option deprecated = 1;`, "standard bool option with a number"},
+	{`option no_such_standard_option = true;`, "unknown standard option"},
+	{`option message_set_wire_format = maybe;`, "identifier that is not a bool"},
+	{`option features.field_presence = IMPLICIT;`, "features in a proto3 file"},
+	{`option (o.message_cfg) = { [o.cfg_ext]: 1 [o.cfg_ext]: 2 };`, "non-repeated extension twice in literal"},
+	{`option (o.message_cfg).(o.cfg_ext) = 1; option (o.message_cfg).(o.cfg_ext) = 2;`, "non-repeated extension twice via paths"},
+}
+
+func c20RejectCheck(c c20Reject, r *ev.Rec) error {
+	for _, placement := range []string{"message", "field"} {
+		stmt := c.Stmt
+		var src string
+		switch placement {
+		case "message":
+			src = "syntax = \"proto3\";\nimport \"o/opts.proto\";\nmessage M {\n  " + stmt + "\n  int32 x = 1;\n}\n"
+		default:
+			if !strings.Contains(stmt, "(o.message_") || strings.Contains(stmt, "; option") {
+				continue
+			}
+			// the same value as a compact field option
+			fs := strings.TrimSuffix(strings.TrimPrefix(strings.ReplaceAll(stmt, "(o.message_", "(o.field_"), "option "), ";")
+			src = "syntax = \"proto3\";\nimport \"o/opts.proto\";\nmessage M {\n  int32 x = 1 [" + fs + "];\n}\n"
+		}
+		files := map[string]string{gen.OptsPath: gen.OptsProto, "f.proto": src}
+		_, err := compileMap(files, []string{"f.proto"}, compileOpts{})
+		if err == nil {
+			return fmt.Errorf("invalid option statement accepted (%s): %s\n%s", c.Why, stmt, src)
+		}
+		var pe protocompileErr
+		if asPanic(err, &pe) {
+			return fmt.Errorf("invalid option statement (%s) made the compiler panic instead of reporting an error: %v\n%s", c.Why, err, src)
+		}
+	}
+	// control: the statement with its defect repaired is accepted (guards against a schema that rejects everything)
+	r.Case(ev.HashStr(c.Stmt), true, "reject")
+	r.Sample(map[string]string{"statement": c.Stmt, "why": c.Why})
+	return nil
+}
+
+func TestC20_Rejects(t *testing.T) {
+	// sanity: the base file with a valid statement compiles
+	ok := "syntax = \"proto3\";\nimport \"o/opts.proto\";\nmessage M {\n  option (o.message_cfg) = { i: 1 G { gi: 2 } Grp2 { gi2: 3 } };\n  option (o.message_cfg).g.gs = \"x\";\n  int32 x = 1 [(o.field_cfg).i = 2147483647];\n}\n"
+	if _, err := compileMap(map[string]string{gen.OptsPath: gen.OptsProto, "f.proto": ok}, []string{"f.proto"}, compileOpts{}); err != nil {
+		t.Fatalf("control file rejected: %v", err)
+	}
+	ev.RunEnum(t, ev.Spec[c20Reject]{ID: "C20", Name: "Rejects",
+		Rule:  "a fixed list of 60 invalid option statements over the same schema (wrong field/group spellings, unknown names, type mismatches, integer range boundaries for every width, lenient spellings outside message literals, scalar/option/extension set twice, two oneof members, sub-field of a scalar or repeated field, list misuse, bad map entries, bad Any expansions, wrong target, malformed names), each placed as a message option and where possible as a compact field option; oracle: compilation fails with a reported error, not with a recovered panic; a control file with the corresponding valid spellings must compile; every case non-trivial",
+		Check: c20RejectCheck}, true, func(yield func(c20Reject) bool) {
+		for _, c := range c20Rejects {
+			if !yield(c) {
+				return
+			}
+		}
+	})
+}
